@@ -95,17 +95,32 @@ pub(super) async fn apply_operations(
 }
 
 /// Apply a [`SyncOp`] to the TaskDb's set of tasks (without recording it in the list of operations)
+///
+/// An operation that does not make sense in the current state is an error.
 pub(super) async fn apply_op(txn: &mut dyn StorageTxn, op: &SyncOp) -> Result<()> {
+    match try_apply_op(txn, op).await? {
+        None => Ok(()),
+        Some(invalid) => Err(Error::Database(invalid)),
+    }
+}
+
+/// Apply a [`SyncOp`] like [`apply_op`], but distinguish an operation that does not make sense in
+/// the current state, returned as `Ok(Some(description))` and leaving the tasks unchanged, from a
+/// failure of the storage, returned as `Err`.
+pub(super) async fn try_apply_op(
+    txn: &mut dyn StorageTxn,
+    op: &SyncOp,
+) -> Result<Option<String>> {
     match op {
         SyncOp::Create { uuid } => {
             // insert if the task does not already exist
             if !txn.create_task(*uuid).await? {
-                return Err(Error::Database(format!("Task {uuid} already exists")));
+                return Ok(Some(format!("Task {uuid} already exists")));
             }
         }
         SyncOp::Delete { ref uuid } => {
             if !txn.delete_task(*uuid).await? {
-                return Err(Error::Database(format!("Task {uuid} does not exist")));
+                return Ok(Some(format!("Task {uuid} does not exist")));
             }
         }
         SyncOp::Update {
@@ -122,12 +137,12 @@ pub(super) async fn apply_op(txn: &mut dyn StorageTxn, op: &SyncOp) -> Result<()
                 };
                 txn.set_task(*uuid, task).await?;
             } else {
-                return Err(Error::Database(format!("Task {uuid} does not exist")));
+                return Ok(Some(format!("Task {uuid} does not exist")));
             }
         }
     }
 
-    Ok(())
+    Ok(None)
 }
 
 #[cfg(test)]
